@@ -34,51 +34,84 @@ _COUNTER = itertools.count()
 SCHED_ROWS = 4
 
 
+def make_row(i, nrows, bump=0):
+    import datetime
+    import hszinc
+    row = {'id': 'id%d' % i, 'n': float((i + bump) % 6), 'f': (i + bump) % 3 == 0,
+           'r': hszinc.Ref('id%d' % ((i + 1 + bump) % nrows)),
+           'd': datetime.date(2020, 1, 1 + (i + bump) % 5), 'q': hszinc.Quantity(float((i + bump) % 4), 'kW'),
+           't': datetime.datetime(2020, 1, 1, (i + bump) % 12, 0, 0, tzinfo=datetime.timezone.utc)}
+    if i % 2:
+        row['k'] = hszinc.MARKER
+    if i == 5:
+        row['t'] = datetime.datetime(2020, 1, 1, 3, 0, 0)      # a naive date-time: not comparable with the literals, hence false
+    return row
+
+
 def shared_grid(nrows=12):
     import hszinc
     g = hszinc.Grid(version='3.0')
-    for c in ('id', 'n', 'k', 'f', 'r'):
+    for c in ('id', 'n', 'k', 'f', 'r', 'd', 'q', 't'):
         g.column[c] = {}
     for i in range(nrows):
-        row = {'id': 'id%d' % i, 'n': float(i % 6), 'f': i % 3 == 0, 'r': hszinc.Ref('id%d' % ((i + 1) % nrows))}
-        if i % 2:
-            row['k'] = hszinc.MARKER
-        g.append(row)
+        g.append(make_row(i, nrows))
     return g
 
 
 def fresh_filters(n, salt, nrows=12):
-    """n filters with different results and texts never used before in this process.  Kinds: number literal,
-    ordering + marker, negation, a->b path through the id index of the shared grid, bool literal (Python-equal to the
-    number literals of other filters), and pairs made of the same tokens but grouped differently
+    """n (text, predicate) pairs with texts never used before in this process.  Kinds: number literal, ordering + marker,
+    negation, a->b path through the id index of the grid, bool literal (Python-equal to number literals of other filters),
+    date / quantity / date-time / Ref literals, and pairs made of the same tokens but grouped differently
     ('(k or n == v) and n != w ...' vs 'k or n == v and n != w ...': different meaning, same print-out)."""
+    import datetime
     out = []
     i = 0
-    R = range(nrows)
+
+    def target(rows, row, tag):
+        r = row.get('r')
+        for x in rows:
+            if r is not None and x.get('id') == r.name:
+                return x.get(tag)
+        return None
     while len(out) < n:
         u = next(_COUNTER)
         v = (salt + i) % 6
-        kind = (salt + i) % 6
+        kind = (salt + i) % 10
         i += 1
+        z = 'zz%d_%d' % (salt, u)
         if kind == 0:
-            out.append(('n == %d and not zz%d_%d' % (v, salt, u), ['id%d' % j for j in R if j % 6 == v]))
+            out.append(('n == %d and not %s' % (v, z), lambda rows, r, v=v: r['n'] == v))
         elif kind == 1:
-            out.append(('n > %d and k and not zz%d_%d' % (v, salt, u), ['id%d' % j for j in R if j % 6 > v and j % 2]))
+            out.append(('n > %d and k and not %s' % (v, z), lambda rows, r, v=v: r['n'] > v and 'k' in r))
         elif kind == 2:
-            out.append(('not k and n != %d and not zz%d_%d' % (v, salt, u), ['id%d' % j for j in R if j % 6 != v and not j % 2]))
+            out.append(('not k and n != %d and not %s' % (v, z), lambda rows, r, v=v: 'k' not in r and r['n'] != v))
         elif kind == 3:
-            out.append(('r->n == %d and not zz%d_%d' % (v, salt, u), ['id%d' % j for j in R if ((j + 1) % nrows) % 6 == v]))
+            out.append(('r->n == %d and not %s' % (v, z), lambda rows, r, v=v: target(rows, r, 'n') == v))
         elif kind == 4:
-            out.append(('f == true and n != %d and not zz%d_%d' % (v, salt, u), ['id%d' % j for j in R if j % 3 == 0 and j % 6 != v]))
+            out.append(('f == true and n != %d and not %s' % (v, z), lambda rows, r, v=v: r['f'] is True and r['n'] != v))
+        elif kind == 5:
+            d = datetime.date(2020, 1, 1 + v % 5)
+            out.append(('d == %s and not %s' % (d.isoformat(), z), lambda rows, r, d=d: r['d'] == d))
+        elif kind == 6:
+            out.append(('q > %dkW and not %s' % (v % 4, z), lambda rows, r, v=v: r['q'].value > v % 4))
+        elif kind == 7:
+            lim = datetime.datetime(2020, 1, 1, 2 + v, 0, 0, tzinfo=datetime.timezone.utc)
+            out.append(('t < 2020-01-01T%02d:00:00Z UTC and not %s' % (2 + v, z),
+                        lambda rows, r, lim=lim: r['t'].tzinfo is not None and r['t'] < lim))
+        elif kind == 8:
+            out.append(('r == @id%d and not %s' % (v % nrows, z), lambda rows, r, v=v: r['r'].name == 'id%d' % (v % nrows)))
         else:
             w = (v + 1) % 6 if (v + 1) % 2 else (v + 2) % 6     # an odd n value: rows with k and n == w exist
-            a = '(k or n == %d) and n != %d and not zz%d_%d' % (v, w, salt, u)
-            wa = ['id%d' % j for j in R if (j % 2 or j % 6 == v) and j % 6 != w]
-            b = 'k or n == %d and n != %d and not zz%d_%d' % (v, w, salt, u)
-            wb = ['id%d' % j for j in R if j % 2 or (j % 6 == v and j % 6 != w)]
-            out.append((a, wa))
-            out.append((b, wb))
+            out.append(('(k or n == %d) and n != %d and not %s' % (v, w, z),
+                        lambda rows, r, v=v, w=w: ('k' in r or r['n'] == v) and r['n'] != w))
+            out.append(('k or n == %d and n != %d and not %s' % (v, w, z),
+                        lambda rows, r, v=v, w=w: 'k' in r or (r['n'] == v and r['n'] != w)))
     return out[:n]
+
+
+def expected(pred, g):
+    rows = list(g)
+    return [r['id'] for r in rows if pred(rows, r)]
 
 
 def run_schedule(nthreads, schedule, salt):
@@ -94,6 +127,7 @@ def run_schedule(nthreads, schedule, salt):
     r = sched.Run(nthreads, schedule, WHERE)
     r.run([worker(t) for t, _ in filters])
     case['resumed'] = r.trace
+    filters = [(text, expected(pred, g)) for text, pred in filters]
     for i, (text, want) in enumerate(filters):
         if r.errors[i] is not None:
             raise Violation('thread-raised', case, 'thread %d evaluating %r raised %s' % (i, text, describe_exc(r.errors[i])),
@@ -139,9 +173,18 @@ def history_check(case):
         pool = fresh_filters(case['pool'], case.get('salt', 0))
         held = {}
         seen = []
+        nrows = len(g)
+        bumps = [0] * nrows
         for step, (op, i) in enumerate(case['ops']):
+            if op == 'mutate':
+                # replace a row of the shared grid (same id, other values and another reference target)
+                j = i % nrows
+                bumps[j] += 1
+                g[j] = make_row(j, nrows, bumps[j])
+                continue
             i = i % len(pool)
-            text, want = pool[i]
+            text, pred = pool[i]
+            want = expected(pred, g)
             try:
                 if op == 'eval':
                     got = [r['id'] for r in g.filter(text)]
@@ -225,7 +268,7 @@ def run(part, args, env):
         op = st.one_of(st.tuples(st.just('eval'), st.integers(0, 29)), st.tuples(st.just('eval'), st.integers(0, 29)),
                        st.tuples(st.just('eval'), st.integers(0, 29)), st.tuples(st.just('eval'), st.integers(0, 11)),
                        st.tuples(st.just('hold'), st.integers(0, 29)), st.tuples(st.just('call_old'), st.integers(0, 29)),
-                       st.tuples(st.just('gc'), st.just(0)))
+                       st.tuples(st.just('gc'), st.just(0)), st.tuples(st.just('mutate'), st.integers(0, 11)))
         strat = st.lists(op, min_size=25, max_size=80).map(lambda ops: {'kind': 'history', 'capacity': 8, 'pool': 30,
                                                                        'ops': [list(o) for o in ops]})
 
@@ -246,6 +289,8 @@ def run(part, args, env):
                 ops.append(['hold', i])
             if i % 90 == 0:
                 ops.append(['eval', hot])
+            if i % 37 == 5:
+                ops.append(['mutate', i])
         ops.append(['gc', 0])
         for i in range(0, 60):
             ops.append(['eval', (i * 7 + v) % 700])         # evicted and still-cached ones
